@@ -354,7 +354,7 @@ def r03_6(ctx):
     for d in (b"", b"\x80", b"\x80\x70"):
         p = run1(ctx, cpx, f, af, {"data": d})
         ctx.require(p.raised("ParsingError"), f"unwrap-short({len(d)})", f"_unwrap of {len(d)} bytes -> {p.terminal} {p.value!r}", func=f)
-    bodies = (b"\x83", b"\xc1\x02\x0b", b"\x25\x42\x21\xa8\x56", bytes(range(40, 70)))
+    bodies = (b"\x83", b"\xc1\x02\x0b", b"\x25\x42\x21\xa8\x56", bytes(range(40, 70))) + ((b"\x53\x00\x7e\x7d\x11\xff\x01",) if ctx.run.tier == "thorough" else ())
     n_flip = 0
     for body in bodies:
         good = spec_with_crc(body)
@@ -366,7 +366,7 @@ def r03_6(ctx):
                         f"data field {body[1:].hex() or 'empty'})", func=f, trace=p.trace())
         # every single-bit error, and (for the short bodies) every double-bit error, is detected: CRC-CCITT guarantees both
         nbits = len(good) * 8
-        flips = [(i,) for i in range(nbits)] + ([(i, j) for i in range(nbits) for j in range(i + 1, nbits)] if len(good) <= 5 else [])
+        flips = [(i,) for i in range(nbits)] + ([(i, j) for i in range(nbits) for j in range(i + 1, nbits)] if len(good) <= (9 if ctx.run.tier == "thorough" else 5) else [])
         for fl in flips:
             bad_frame = bytearray(good)
             for bit in fl:
